@@ -337,19 +337,25 @@ func descTree(t interface{}) string {
 
 // asStruct renders a map-rooted tree as a value of a run-time struct type
 // (reflect.StructOf) with config tags; nested maps become nested structs.
-func asStruct(t map[string]interface{}) interface{} {
-	keys := make([]string, 0, len(t))
-	for k := range t {
-		keys = append(keys, k)
+func asStruct(t map[string]interface{}) interface{} { return asStructOrder(nil, t) }
+
+// asStructOrder: with an Rng the fields are declared in a pseudo-random order (the order in
+// which normalizeStruct visits them), otherwise sorted by key.
+func asStructOrder(r *Rng, t map[string]interface{}) interface{} {
+	keys := sortedKeys(t)
+	if r != nil {
+		for j := len(keys) - 1; j > 0; j-- {
+			k := r.Intn(j + 1)
+			keys[j], keys[k] = keys[k], keys[j]
+		}
 	}
-	sort.Strings(keys)
 	var fields []reflect.StructField
 	var vals []reflect.Value
 	for i, k := range keys {
 		var v reflect.Value
 		switch x := t[k].(type) {
 		case map[string]interface{}:
-			v = reflect.ValueOf(asStruct(x))
+			v = reflect.ValueOf(asStructOrder(r, x))
 		case nil:
 			v = reflect.Zero(reflect.TypeOf((*interface{})(nil)).Elem())
 		default:
